@@ -1,7 +1,8 @@
 --------------------------- MODULE GenoStats_Trace ---------------------------
 (* Validates statistics recorded from the real genotype-matrix classes against GenoStats.         *)
 (* A record describes one matrix (cls = "unphased" | "phased"):                                    *)
-(*   n, loci = sequence of phased compositions <<n00,n01,n10,n11>> (the input, counted from the   *)
+(*   n, ploidy, loci = sequence of phased compositions <<n00,n01,n10,n11>> (diploid records) or    *)
+(*   dose = sequence of dosage-class compositions (any ploidy), counted from the raw allele calls, *)
 (*   raw allele calls), and the observed outputs in exact integer form:                            *)
 (*   acount[l]; af[l] = round(afreq*2n), afzero[l], afone[l], afin01[l], aflat[l] (on the lattice) *)
 (*   poly[l], fixed[l]; maf[l] = round(maf*2n); meh = round(meh * (2n)^2 * L / 2), mehlat;         *)
@@ -14,44 +15,53 @@ Cases == JsonDeserialize(IOEnv.TRACE_FILE)
 VARIABLE i
 tvars == <<i, q>>
 
+\* ploidy of the record and dosage-class composition of locus l: diploid records give phased compositions (loci),
+\* records of other ploidies give the dosage-class counts directly (dose)
+PloidyOf(c) == c.ploidy
+DC(c, l) == IF "dose" \in DOMAIN c THEN c.dose[l] ELSE GtCount(c.loci[l])
+NLoci(c) == IF "dose" \in DOMAIN c THEN Len(c.dose) ELSE Len(c.loci)
+
 RECURSIVE SumHet(_, _)
-SumHet(loci, k) == IF k = 0 THEN 0 ELSE HetNum(loci[k]) + SumHet(loci, k - 1)
+SumHet(c, k) == IF k = 0 THEN 0 ELSE HetNumDC(DC(c, k)) + SumHet(c, k - 1)
 
 LocusVerdict(c, l) ==
-    LET x == c.loci[l]
-        a == ACountUnphased(x)
+    LET x == DC(c, l)
+        a == ACountDC(x)
+        P == PloidyOf(c)
     IN IF c.acount[l] # a THEN "acount"
        ELSE IF ~c.afin01[l] THEN "afreq-outside-0-1"
        ELSE IF ~c.aflat[l] \/ c.af[l] # a THEN "afreq-value"
        ELSE IF c.afzero[l] # (a = 0) THEN "afreq-not-exactly-0-when-allele-absent"
-       ELSE IF c.afone[l] # (a = Copies(x)) THEN "afreq-not-exactly-1-when-allele-fixed"
-       ELSE IF c.poly[l] # Poly(x) THEN "apoly"
-       ELSE IF c.fixed[l] # Fixed(x) THEN "afixed"
+       ELSE IF c.afone[l] # (a = CopiesDC(x)) THEN "afreq-not-exactly-1-when-allele-fixed"
+       ELSE IF c.poly[l] # PolyDC(x) THEN "apoly"
+       ELSE IF c.fixed[l] # ~PolyDC(x) THEN "afixed"
        ELSE IF c.fixed[l] = c.poly[l] THEN "afixed-not-complement-of-apoly"
-       ELSE IF c.maf[l] # MinorCount(x) THEN "maf"
-       ELSE IF c.gtrows # Ploidy + 1 THEN "gtcount-classes"
-       ELSE IF <<c.gt[1][l], c.gt[2][l], c.gt[3][l]>> # GtCount(x) THEN "gtcount"
-       ELSE IF ~c.gtflat \/ <<c.gtf[1][l], c.gtf[2][l], c.gtf[3][l]>> # GtCount(x) THEN "gtfreq"
+       ELSE IF c.maf[l] # MinorCountDC(x) THEN "maf"
+       ELSE IF c.gtrows # P + 1 THEN "gtcount-classes"
+       ELSE IF \E k \in 1..(P + 1) : c.gt[k][l] # x[k] THEN "gtcount"
+       ELSE IF ~c.gtflat \/ \E k \in 1..(P + 1) : c.gtf[k][l] # x[k] THEN "gtfreq"
        ELSE "ok"
 
+\* per-cell outputs of small matrices: dos = dosage; tac = tacount; tafP = round(ploidy * tafreq); codings for diploids
 SmallVerdict(c) ==
     LET n == c.n
-        L == Len(c.loci)
+        L == NLoci(c)
     IN IF \E t \in 1..n : \E l \in 1..L : c.tac[t][l] # c.dos[t][l] THEN "tacount"
        ELSE IF \E t \in 1..n : \E l \in 1..L : c.taf2[t][l] # c.dos[t][l] THEN "tafreq"
        ELSE IF \E t \in 1..n : \E l \in 1..L : c.c012[t][l] # c.dos[t][l] THEN "coding-012"
+       ELSE IF PloidyOf(c) # 2 THEN "ok"
        ELSE IF \E t \in 1..n : \E l \in 1..L : c.cm101[t][l] # c.dos[t][l] - 1 THEN "coding-m101"
        ELSE IF \E t \in 1..n : \E l \in 1..L :
-                 c.cmm[t][l] # (IF c.dos[t][l] = 1 THEN ACountUnphased(c.loci[l]) - n ELSE (c.dos[t][l] - 1) * n)
+                 c.cmm[t][l] # (IF c.dos[t][l] = 1 THEN ACountDC(DC(c, l)) - n ELSE (c.dos[t][l] - 1) * n)
             THEN "coding-m1m1"
        ELSE "ok"
 
 Verdict(c) ==
-    LET L == Len(c.loci)
+    LET L == NLoci(c)
         bad == {l \in 1..L : LocusVerdict(c, l) # "ok"}
-    IN IF \E l \in 1..L : N(c.loci[l]) # c.n THEN "harness-composition"
+    IN IF \E l \in 1..L : NDC(DC(c, l)) # c.n \/ Len(DC(c, l)) # PloidyOf(c) + 1 THEN "harness-composition"
        ELSE IF bad # {} THEN LocusVerdict(c, CHOOSE l \in bad : \A m \in bad : l <= m)
-       ELSE IF ~c.mehlat \/ c.meh # SumHet(c.loci, L) THEN "meh"
+       ELSE IF ~c.mehlat \/ c.meh # SumHet(c, L) THEN "meh"
        ELSE IF c.small THEN SmallVerdict(c)
        ELSE "ok"
 
